@@ -8,7 +8,13 @@ Coq model (Model/Vcf.v, Model/VBaf.v).  The generator builds a STRUCTURED VCF
 text through pysam, the model and the direct oracle read the structure.  The
 direct oracle is written from the property text in fractions.Fraction and only
 speaks where the text defines the answer (fully called genotypes, numeric AD and
-DP, variants that do not straddle a range boundary)."""
+DP, variants that do not straddle a range boundary).
+
+Four defects this check found were repaired in /repo (1e91c33 TumorBoost values attached to the
+wrong rows after filtering; 98a0701 a range's single variant not mirrored to the requested side;
+040d41e a VCF without records read with skip_somatic lost its columns; 3e1c38e a sample without any
+AD value gave object-typed columns): their shrunk inputs are the first entries of corpus/c18.json
+and are checked without any signature.  One finding is open (SIG_FALLBACK)."""
 import os, math, json
 from fractions import Fraction as F
 import vlib
@@ -16,12 +22,7 @@ from vlib import Err
 
 LEVEL = 'proof'
 
-SIG_FALLBACK = 'het-fallback-keeps-all-when-none-heterozygous'
-SIG_SINGLE = 'baf-single-hit-not-mirrored'
-SIG_BOOST = 'tumor-boost-misaligned-after-row-filtering'
-SIG_EMPTY = 'baf-raises-on-empty-file-read-with-skip-somatic'
-
-SIG_OBJ = 'tumor-boost-typeerror-when-normal-alt-counts-are-all-missing'
+SIG_FALLBACK = 'het-fallback-keeps-all-when-none-heterozygous'      # open, /verif/known_findings.json
 SKIP = 'skip'
 
 _seen_sigs = set()
@@ -149,7 +150,7 @@ def gen_vcf(rng, tier, size_class=None):
     depth_bias = [0, 1, mind - 1, mind, mind + 1, 19, 20, 21, 40, 40]
     fmt_mode = rng.choice(['full', 'full', 'full', 'mixed', 'mixed', 'noDP', 'noAD', 'GTonly'])
     all_normal_ref = nsamp >= 2 and rng.random() < 0.08      # Mutect2-like: one sample always 0/0
-    hom_only = rng.random() < 0.06                           # no heterozygous genotype at all
+    hom_only = rng.random() < 0.03                           # no heterozygous genotype at all (region of the open finding)
     recs, keys = [], set()
     per = [0] * ncontig
     for _ in range(nrec):
@@ -201,12 +202,26 @@ def gen_vcf(rng, tier, size_class=None):
                 'info_dp': rng.choice([None, None, rng.randint(0, 90)]),
                 'info_end': rng.choice([None, None, None, None, pos + rng.randint(0, 60)]),
                 'has_ad': has_ad, 'has_dp': has_dp, 'calls': calls})
+    # one whole sample without any AD / DP / GT value (its columns must still come out numeric: 0 where missing)
+    w = rng.random()
+    whole = None
+    if recs and w < 0.12:
+        k = rng.randrange(nsamp)
+        whole = 'ad' if w < 0.06 else 'dp' if w < 0.10 else 'gt'
+        for r in recs:
+            c = r['calls'][k]
+            if whole == 'ad':
+                c['ad'] = [None]
+            elif whole == 'dp':
+                c['dp'] = None
+            else:
+                c['gt'] = rng.choice([[None, None], [None]])
     order = 'sorted'
     if rng.random() < 0.3:
         rng.shuffle(recs)
         order = 'shuffled'
     return {'samples': samples, 'peds': peds, 'other_ped_lines': other_ped_lines, 'contigs': contigs,
-            'recs': recs, 'order': order, 'mind': mind, 'size_class': size_class}
+            'recs': recs, 'order': order, 'mind': mind, 'size_class': size_class, 'whole_sample_missing': whole}
 
 
 def call_text(rec, c):
@@ -271,16 +286,23 @@ def fcell(x):
     return x
 
 
+VALUE_COLUMNS = ('zygosity', 'depth', 'alt_count', 'alt_freq')
+N_VALUE_COLUMNS = ('n_zygosity', 'n_depth', 'n_alt_count', 'n_alt_freq')
+
+
+class MissingColumns(Exception):
+    pass
+
+
 def table_rows(varr):
     """VariantArray -> (paired, labels, rows) with rows = [chrom, start, end, ref, alt, somatic, [z, d, c, f], n|None]"""
     d = varr.data
     paired = 'n_depth' in d.columns
     cols = {c: d[c].tolist() for c in d.columns}
     rows = []
-    if 'alt_freq' not in d.columns:
-        if len(d):
-            raise RuntimeError('non-empty variant table without alt_freq')
-        return False, [], []
+    missing = [c for c in VALUE_COLUMNS + (N_VALUE_COLUMNS if paired else ()) if c not in d.columns]
+    if missing:
+        raise MissingColumns(missing)
     for i in range(len(d)):
         t = [fcell(cols['zygosity'][i]), fcell(cols['depth'][i]), fcell(cols['alt_count'][i]), fcell(cols['alt_freq'][i])]
         n = None
@@ -290,24 +312,6 @@ def table_rows(varr):
         rows.append([cols['chromosome'][i], int(cols['start'][i]), int(cols['end'][i]), cols['ref'][i], cols['alt'][i],
                      bool(cols['somatic'][i]), t, n])
     return paired, [int(x) for x in d.index.tolist()], rows
-
-
-def is_bare(varr):
-    return 'alt_freq' not in varr.data.columns
-
-
-def obj_cols(varr):
-    d = varr.data
-    return any(d[c].dtype == object for c in ('alt_freq', 'n_alt_freq') if c in d.columns) and len(d) > 0
-
-
-def boost_typeerror(ck, c, varr, case):
-    """_tumor_boost raises TypeError when a frequency column has object dtype (every alt count of that sample missing)"""
-    if isinstance(c, Err) and 'TypeError' in c.msg and obj_cols(varr):
-        report(ck, 'TumorBoost raises %s: a frequency column is object-typed because every alt count of that sample is '
-               'missing in the file' % c.msg, case, sig=SIG_OBJ, code=c, clause='C18_boost')
-        return True
-    return False
 
 
 def errname(e):
@@ -599,7 +603,8 @@ def gen_ranges(rng, vcf, rows):
 
 
 # ----------------------------------------------------------------------------
-# one VCF: run code, oracle, queue model requests
+# one VCF: run code, oracle, queue model requests.  Every stage is a function of
+# explicit arguments, so that the random stream and the fixed corpus share them.
 
 
 class Pending:
@@ -615,13 +620,6 @@ class Pending:
             for (inp, cb), o in zip(items, outs):
                 cb(o)
         self.req = {}
-
-
-def norm_model_rows(mrows):
-    out = []
-    for r in mrows:
-        out.append([r[0], r[1], r[2], r[3], r[4], r[5], r[6], r[7]])
-    return out
 
 
 def gen_selectors(rng, vcf):
@@ -675,35 +673,604 @@ def small(case_vcf):
     return v
 
 
-def run_vcf(ck, rng, scratch, idx, vcf, pend, budget):
-    path = os.path.join(scratch, 'v%d.vcf' % idx)
-    write_vcf(path, vcf)
-    H, R = model_header(vcf), model_records(vcf)
-    nrec = len(vcf['recs'])
-    base = {'vcf': small(vcf), 'file_index': idx}
+class Ctx:
+    """one VCF written to disk + its model encoding"""
 
-    # ---- sample choice ----------------------------------------------------
+    def __init__(self, ck, pend, scratch, idx, vcf):
+        self.ck, self.pend, self.idx, self.vcf = ck, pend, idx, vcf
+        self.path = os.path.join(scratch, 'v%d.vcf' % idx)
+        write_vcf(self.path, vcf)
+        self.H, self.R = model_header(vcf), model_records(vcf)
+        self.base = {'vcf': small(vcf), 'file_index': idx}
+
+    def close(self):
+        os.remove(self.path)
+
+
+def read_rows(ck, v, case, clause):
+    """table_rows, reporting a table that lost its columns"""
+    try:
+        return table_rows(v)
+    except MissingColumns as e:
+        report(ck, 'the variant table lacks the columns %s' % ', '.join(e.args[0]), case,
+               code=list(v.data.columns), clause=clause)
+        return None
+
+
+# ---- sample choice ------------------------------------------------------------
+
+
+def stage_choose(cx, ssel, nsel):
+    ck, vcf = cx.ck, cx.vcf
+    case = dict(cx.base, stage='choose', sample_id=ssel, normal_id=nsel)
+    c = code_choose(cx.path, ssel, nsel)
+    o = o_choose(vcf, ssel, nsel)
+    cls = 'choose:%s:%s' % ('ped' if vcf['peds'] else 'noped',
+                            'err' if isinstance(c, Err) else ('pair' if c[1] else 'single'))
+    ck.count(['choose', vcf['samples'], vcf['peds'], ssel, nsel],
+             nontrivial=(ssel is not None or nsel is not None or bool(vcf['peds'])), cls=cls)
+    if o != UNDEF and c != o:
+        report(ck, 'sample/normal choice differs from the documented rules', case, code=c, expected=o, clause='C18_choose')
+        return
+
+    def cb(m, c=c, case=case):
+        if m != c:
+            ck.tie_break('model choose_samples differs from _choose_samples', case, code=c, model=m)
+    cx.pend.add('choose', [cx.H, ssel, nsel], cb)
+
+
+# ---- read ------------------------------------------------------------------------
+
+
+def stage_read(cx, ssel, nsel, md, sr, ss):
+    ck, vcf, idx, path = cx.ck, cx.vcf, cx.idx, cx.path
+    case = dict(cx.base, stage='read', sample_id=ssel, normal_id=nsel, min_depth=md, skip_reject=sr, skip_somatic=ss)
+    v = code_read(path, ssel, nsel, md, sr, ss)
+    o = o_choose(vcf, ssel, nsel)
+    if isinstance(v, Err):
+        c = v
+        ck.count(['read', idx, ssel, nsel, md, sr, ss], nontrivial=False, cls='read:error')
+        if isinstance(o, list):
+            report(ck, 'reading raised %s for selectors the documented rules accept' % v.msg, case, code=v, expected=o,
+                   clause='C18_choose')
+            return
+    else:
+        tr = read_rows(ck, v, case, 'C18_rows')
+        if tr is None:
+            return
+        paired, labels, rows = tr
+        c = [paired, rows]
+        ck.count(['read', idx, ssel, nsel, md, sr, ss], nontrivial=len(rows) > 0,
+                 cls='read:%s:%s%s%s%s' % ('paired' if paired else 'single', 'd' if md else '-', 's' if ss else '-',
+                                           'r' if sr else '-', ':no-records' if not vcf['recs'] else ''))
+        if labels != list(range(len(rows))):
+            report(ck, 'read: index is not 0..n-1 after sort', case, code=labels[:20], clause='C18_attached')
+            return
+        if isinstance(o, Err):
+            report(ck, 'reading succeeded although the selectors name no sample of the file', case, code=c[0], expected=o,
+                   clause='C18_choose')
+            return
+        if isinstance(o, list):
+            if paired != bool(o[1]):
+                report(ck, 'read: paired-normal columns do not follow the chosen pair', case, code=paired, expected=o,
+                       clause='C18_choose')
+                return
+            if not md and not ss:
+                if not o_check_rows(ck, vcf, case, o[0], o[1], rows, sr):
+                    return
+            else:
+                # C18_filters: exactly the unfiltered rows passing the filters (metamorphic on the code's own rows)
+                v0 = code_read(path, ssel, nsel, None, sr, False)
+                if isinstance(v0, Err):
+                    report(ck, 'unfiltered read fails where the filtered read works', case, code=v0, clause='C18_filters')
+                    return
+                tr0 = read_rows(ck, v0, case, 'C18_rows')
+                if tr0 is None:
+                    return
+                rows0 = tr0[2]
+                exp = rows0
+                if md and any(r[6][1] for r in rows0):
+                    exp = [r for r in exp if (r[7] if r[7] is not None else r[6])[1] >= md]
+                if ss:
+                    exp = [r for r in exp if not r[5]]
+                if rows != exp:
+                    report(ck, 'read: filtered table is not the unfiltered table restricted by min_depth/skip_somatic',
+                           case, code=[rkey(r) for r in rows][:40], expected=[rkey(r) for r in exp][:40], clause='C18_filters')
+                    return
+
+    def cb(m, c=c, case=case):
+        if isinstance(m, Err) or isinstance(c, Err):
+            if m != c:
+                ck.tie_break('model read_vcf error behaviour differs from the code', case, code=c, model=m)
+            return
+        if m[0] != c[0] or not same_rows(c[1], m[1]):
+            bad = next((i for i, (a, b) in enumerate(zip(c[1], m[1])) if not same_row(a, b)), None)
+            ck.tie_break('model read_vcf differs from tabio.read', case, code_paired=c[0], model_paired=m[0],
+                         n_code=len(c[1]), n_model=len(m[1]), first_diff=bad,
+                         code=c[1][bad] if bad is not None and bad < len(c[1]) else None,
+                         model=m[1][bad] if bad is not None and bad < len(m[1]) else None)
+    cx.pend.add('read', [cx.H, cx.R, ssel, nsel, md, sr, ss], cb)
+
+
+# ---- load_het_snps ------------------------------------------------------------------
+
+
+def stage_het(cx, ssel, nsel, md, zf, tb, expect=None):
+    """returns the source tuple of the kept table (for the BAF stages) when tumor_boost is off"""
+    ck, vcf, idx, path = cx.ck, cx.vcf, cx.idx, cx.path
+    case = dict(cx.base, stage='load_het', sample_id=ssel, normal_id=nsel, min_depth=md, zygosity_freq=zf, tumor_boost=tb)
+    h = code_load_het(path, ssel, nsel, md, zf, tb)
+    v1 = code_read(path, ssel, nsel, md, False, True)
+    if isinstance(v1, Err):
+        ck.count(['het', idx, ssel, nsel, md, zf, tb], nontrivial=False, cls='het:read-error')
+        return None
+    tr1 = read_rows(ck, v1, case, 'C18_rows')
+    if tr1 is None:
+        return None
+    paired, _, rows1 = tr1
+    fin = finite_rows(rows1)
+    if not fin:
+        ck.cls('het:non-finite-frequency')
+    # which rows are germline-heterozygous according to the property
+    eff = zf
+    fallback_freq = False
+    if zf is None and paired and not any(r[7][0] for r in rows1):
+        eff = 0.25
+        fallback_freq = True        # documented Mutect2 work-around: genotypes say nothing, no oracle
+    amb = [False]
+    if eff is not None and 0 <= eff <= 0.5:
+        lo, hi = F(eff), 1 - F(eff)
+
+        def zy(g):
+            f = g[3]
+            if f == 'inf':
+                return F(1)
+            d, c = g[1], g[2]
+            x = F(int(c), int(d)) if d else F(0)
+            for thr in (lo, hi):
+                if x != thr and abs(x - thr) < F(1, 10 ** 9):
+                    amb[0] = True
+            if float(hi) != 1 - eff:
+                amb[0] = amb[0] or abs(x - hi) < F(1, 10 ** 9)
+            return F(0) if x < lo else (F(1) if x >= hi else F(1, 2))
+        germs = [zy(r[7] if r[7] is not None else r[6]) for r in rows1]
+        for r in rows1:
+            if r[7] is not None:
+                zy(r[6])        # the tumour's zygosity column is recomputed too: same float caveat
+    else:
+        germs = [frac(germ(r)) for r in rows1]
+    ret = None
+    if isinstance(h, Err):
+        c = h
+        ck.count(['het', idx, ssel, nsel, md, zf, tb], nontrivial=False, cls='het:error:' + h.msg[:14])
+        expect_err = (zf is not None and not (0 <= zf <= 0.5)) or (tb and not paired)
+        if not expect_err:
+            report(ck, 'load_het_snps raised %s' % h.msg, case, code=h, clause='C18_het')
+            return None
+    else:
+        trh = read_rows(ck, h, case, 'C18_het')
+        if trh is None:
+            return None
+        hp, hlabels, hrows = trh
+        c = [hp, [[l, r] for l, r in zip(hlabels, hrows)]]
+        exp = [r for r, g in zip(rows1, germs) if g == F(1, 2)]
+        n_het = len(exp)
+        ck.count(['het', idx, ssel, nsel, md, zf, tb], nontrivial=n_het > 0 and n_het < len(rows1),
+                 cls='het:%s:%s%s:%s%s' % ('paired' if paired else 'single', 'zf' if zf is not None else 'gt',
+                                           '+boost' if tb else '', 'none-het' if n_het == 0 else 'some-het',
+                                           ':rows-dropped' if hlabels != list(range(len(hlabels))) else ''))
+        if amb[0]:
+            ck.float_ambiguous += 1
+            return None
+        if expect is not None:
+            got = [[r[1], r[6][3]] for r in hrows]
+            if len(got) != len(expect) or any(a[0] != b[0] or not same_num(a[1], frac_s(b[1])) for a, b in zip(got, expect)):
+                report(ck, 'corpus: load_het_snps rows (start, alt_freq) differ from the recorded expectation', case,
+                       code=got, expected=expect, clause='C18_het/C18_attached')
+                return None
+        if not fallback_freq:
+            got_keys = [rkey(r) for r in hrows]
+            if n_het == 0 and hrows:
+                report(ck, 'load_het_snps keeps %d records although none is germline-heterozygous (documented '
+                       'fallback of VariantArray.heterozygous)' % len(hrows), case, sig=SIG_FALLBACK,
+                       code=got_keys[:20], expected=[], clause='C18_het_fallback')
+            elif got_keys != [rkey(r) for r in exp]:
+                report(ck, 'load_het_snps does not keep exactly the germline-heterozygous records', case,
+                       code=got_keys[:40], expected=[rkey(r) for r in exp][:40], clause='C18_het')
+                return None
+            elif fin:
+                # C18_attached / C18_boost: every kept row still carries its own numbers -- with tumor_boost the
+                # TumorBoost value of ITS OWN tumour and normal frequencies, whatever rows were dropped before
+                for r, e in zip(hrows, exp):
+                    ef = frac(e[6][3])
+                    if tb:
+                        ef = boost_f(exact_freq(None, e, 't') or F(0), exact_freq(None, e, 'n') or F(0))
+                        if ef == UNDEF:
+                            continue
+                    z0 = 1 if eff is not None else 0      # zygosity is recomputed from the frequency when asked
+                    if not same_num(r[6][3], ef) or r[6][z0:3] != e[6][z0:3] or r[:6] != e[:6] \
+                            or (r[7] is None) != (e[7] is None) or (r[7] is not None and r[7][z0:] != e[7][z0:]):
+                        report(ck, 'load_het_snps%s: the kept row at %s:%d does not carry its own %s frequency' % (
+                            '(tumor_boost=True)' if tb else '', r[0], r[1], 'TumorBoost-normalised' if tb else 'allele'),
+                            case, code=r, expected=ef, read_row=e, clause='C18_attached/C18_boost')
+                        return None
+        if not tb:
+            ret = (1, ssel, nsel, md, True, zf, h, hrows, paired, hlabels)
+
+    def cb(m, c=c, case=case):
+        if isinstance(m, Err) or isinstance(c, Err):
+            if m != c:
+                ck.tie_break('model load_het_snps error behaviour differs from the code', case, code=c, model=m)
+            return
+        cl = [x[0] for x in c[1]]
+        ml = [x[0] for x in m[1]]
+        if m[0] != c[0] or cl != ml or not same_rows([x[1] for x in c[1]], [x[1] for x in m[1]]):
+            ck.tie_break('model load_het_snps differs from the code', case, code_labels=cl[:30], model_labels=ml[:30],
+                         code=[x[1] for x in c[1]][:10], model=[x[1] for x in m[1]][:10])
+    if fin:
+        cx.pend.add('load_het', [cx.H, cx.R, ssel, nsel, md, zf, tb], cb)
+    return ret
+
+
+def frac_s(x):
+    """corpus expectation cell: null | 'a/b' | number"""
+    if x is None:
+        return None
+    return F(x)
+
+
+# ---- BAF per range ------------------------------------------------------------------------
+
+
+def make_source(cx, stage, ssel, nsel, md, ss, zf, must=False):
+    """the variant table a BAF query runs on: stage 0 = tabio.read, stage 1 = load_het_snps(tumor_boost=False)"""
+    case = dict(cx.base, stage='source', source_stage=stage, sample_id=ssel, normal_id=nsel, min_depth=md, skip_somatic=ss,
+                zygosity_freq=zf)
+    v = code_read(cx.path, ssel, nsel, md, False, ss) if stage == 0 else code_load_het(cx.path, ssel, nsel, md, zf, False)
+    if isinstance(v, Err):
+        if must:
+            report(cx.ck, 'corpus: the variant table could not be built: %s' % v.msg, case, code=v, clause='C18_rows')
+        return None
+    tr = read_rows(cx.ck, v, case, 'C18_rows')
+    if tr is None:
+        return None
+    paired, labels, rows = tr
+    return (stage, ssel, nsel, md, ss if stage == 0 else True, zf, v, rows, paired, labels)
+
+
+def het_rows(rows):
+    """the germline-heterozygous rows of a table, by its own zygosity columns (the normal's when paired)"""
+    return [r for r in rows if frac(germ(r)) == F(1, 2)]
+
+
+def own_values(rows, tb, paired):
+    """the frequency each row contributes: count/depth of its own columns (0 where missing), TumorBoost-ed with
+    the row's own normal frequency when asked and there is a normal"""
+    out = []
+    for r in rows:
+        t = exact_freq(None, r, 't') or F(0)
+        if tb and paired:
+            out.append(boost_f(t, exact_freq(None, r, 'n') or F(0)))
+        else:
+            out.append(t)
+    return out
+
+
+def o_range_baf(het, rg, ah, tb, paired):
+    """candidates for the BAF of one range, from the property text: the median of the heterozygous frequencies
+    inside it mirrored to one side of 1/2; None = missing; UNDEF where the text is silent (a variant straddles
+    the range boundary, TumorBoost undefined)"""
+    chrom, s, e = rg
+    inside = [r for r in het if r[0] == chrom and s <= r[1] and r[2] <= e]
+    touching = [r for r in het if r[0] == chrom and r[2] > s and r[1] < e]
+    if len(inside) != len(touching):
+        return UNDEF, []
+    vals = own_values(inside, tb, paired)
+    if UNDEF in vals:
+        return UNDEF, vals
+    if not vals:
+        return [None], vals
+    return [median_f([mirror_f(a, x) for x in vals]) for a in ((True, False) if ah is None else (ah,))], vals
+
+
+def stage_baf(cx, source, queries, expects=None):
+    ck, idx = cx.ck, cx.idx
+    (stage, ssel, nsel, md, ss, zf, varr, rows, paired, labels) = source
+    if not finite_rows(rows):
+        ck.cls('baf:non-finite-frequency-skipped')
+        return
+    het = het_rows(rows)
+    none_het = bool(rows) and not het
+    # a normal frequency of exactly 1 makes TumorBoost divide by zero (inf / NaN): outside the model's BAF stages
+    boost_inf = paired and any((exact_freq(None, r, 'n') or F(0)) == 1 for r in rows)
+    dropped = labels != list(range(len(labels)))
+    code_out, cases = [], []
+    for qi, (ranges, ah, tb) in enumerate(queries):
+        case = dict(cx.base, stage='baf', source_stage=stage, sample_id=ssel, normal_id=nsel, min_depth=md, skip_somatic=ss,
+                    zygosity_freq=zf, ranges=ranges, above_half=ah, tumor_boost=tb)
+        try:
+            out = varr.baf_by_ranges(make_segments(ranges), above_half=ah, tumor_boost=tb)
+            c = series_cells(out, len(ranges))
+        except Exception as e:      # noqa
+            c = errname(e)
+        code_out.append(c)
+        cases.append(case)
+        ck.count(['baf', idx, stage, ssel, nsel, md, ss, zf, ranges, ah, tb], nontrivial=bool(het) and bool(ranges),
+                 cls='baf:%s:%s%s%s%s' % ('ah=' + str(ah), 'boost' if (tb and paired) else 'plain', ':none-het' if none_het else '',
+                                          ':rows-dropped' if dropped else '', ':no-rows' if not rows else ''))
+        if tb and boost_inf:
+            ck.cls('baf:boost-with-normal-frequency-1(skipped)')
+            code_out[-1] = SKIP
+            continue
+        if isinstance(c, Err):
+            report(ck, 'baf_by_ranges raised %s' % c.msg, case, code=c,
+                   expected=[None] * len(ranges) if not rows else None, clause='C18_baf')
+            continue
+        if c == 'dest':
+            if ranges:
+                report(ck, 'baf_by_ranges returns the ranges table itself, not one value per range', case,
+                       code='<the ranges DataFrame>', expected=[None] * len(ranges) if not rows else None, clause='C18_baf')
+            continue
+        if len(c) != len(ranges):
+            report(ck, 'baf_by_ranges: result length differs from the number of ranges', case, code=len(c),
+                   expected=len(ranges), clause='C18_baf')
+            continue
+        if expects is not None and expects[qi] is not None:
+            ex = [frac_s(x) for x in expects[qi]]
+            if len(ex) != len(c) or not all(same_num(a, b) for a, b in zip(c, ex)):
+                report(ck, 'corpus: baf_by_ranges differs from the recorded expectation', case, code=c, expected=expects[qi],
+                       clause='C18_baf')
+                continue
+        if none_het:
+            # the property: no heterozygous frequency anywhere => every range is missing; the code's
+            # heterozygous() falls back to ALL rows (open finding, same fallback as in load_het_snps)
+            if any(x is not None for x in c):
+                report(ck, 'baf_by_ranges gives a BAF from %d records none of which is germline-heterozygous (documented '
+                       'fallback of VariantArray.heterozygous)' % len(rows), case, sig=SIG_FALLBACK, code=c,
+                       expected=[None] * len(ranges), clause='C18_het_fallback')
+            continue
+        # per range: median of the contained heterozygous frequencies mirrored to one side of 1/2
+        for rg, got in zip(ranges, c):
+            cands, vals = o_range_baf(het, rg, ah, tb, paired)
+            if cands == UNDEF:
+                ck.cls('baf:range-outside-the-text(model only)')
+                continue
+            ck.cls('baf:range-hits=%s' % (len(vals) if len(vals) < 3 else '3+'))
+            if any(same_num(got, x) for x in cands):
+                continue
+            chrom, s, e = rg
+            if cands == [None]:
+                report(ck, 'BAF of %s:%d-%d, a range without heterozygous variants, is not missing' % (chrom, s, e), case,
+                       range=[chrom, s, e], code=got, expected=None, clause='C18_baf')
+            else:
+                report(ck, 'BAF of %s:%d-%d is not the median of its %d heterozygous %sfrequencies mirrored %s 1/2' % (
+                    chrom, s, e, len(vals), 'TumorBoost ' if (tb and paired) else '',
+                    'above' if ah else 'below' if ah is not None else 'to one side of'), case,
+                    range=[chrom, s, e], frequencies=vals[:20], code=got, expected=cands, clause='C18_baf')
+            break
+
+    def cb(m, code_out=code_out, cases=cases):
+        if isinstance(m, Err):
+            ck.tie_break('model BAF source table errors where the code reads fine', cases[0] if cases else cx.base, model=m)
+            return
+        for c, mm, case in zip(code_out, m, cases):
+            if c != SKIP and not same_vec(c, mm):
+                ck.tie_break('model baf_by_ranges differs from the code', case, code=c, model=mm)
+                return
+    if queries:
+        cx.pend.add('baf', [cx.H, cx.R, ssel, nsel, stage, md, ss, zf, [list(q) for q in queries]], cb)
+
+
+# ---- whole-array mirrored_baf and tumor_boost() ---------------------------------------------
+
+
+def stage_mirrored(cx, source, mq):
+    ck, idx = cx.ck, cx.idx
+    (stage, ssel, nsel, md, ss, zf, varr, rows, paired, labels) = source
+    if not finite_rows(rows):
+        return
+    boost_inf = paired and any((exact_freq(None, r, 'n') or F(0)) == 1 for r in rows)
+    mc = []
+    for ah, tb in mq:
+        case = dict(cx.base, stage='mirrored', source_stage=stage, sample_id=ssel, normal_id=nsel, min_depth=md,
+                    skip_somatic=ss, zygosity_freq=zf, above_half=ah, tumor_boost=tb)
+        try:
+            mc.append([fcell(x) for x in list(varr.mirrored_baf(above_half=ah, tumor_boost=tb))])
+        except Exception as e:      # noqa
+            mc.append(errname(e))
+        ck.count(['mirrored', idx, stage, ssel, nsel, md, ss, zf, ah, tb], nontrivial=len(rows) > 1,
+                 cls='mirrored:ah=%s%s' % (ah, ':boost' if (tb and paired) else ''))
+        if tb and boost_inf:
+            mc[-1] = SKIP
+            continue
+        if isinstance(mc[-1], Err):
+            report(ck, 'mirrored_baf raised %s' % mc[-1].msg, case, code=mc[-1], clause='C18_baf')
+            continue
+        base_vals = own_values(rows, tb, paired)
+        if UNDEF in base_vals:
+            continue
+        if len(mc[-1]) != len(rows):
+            report(ck, 'mirrored_baf: not one value per variant', case, code=len(mc[-1]), expected=len(rows), clause='C18_baf')
+            continue
+        for a in ((True, False) if ah is None else (ah,)):
+            if all(same_num(g, mirror_f(a, x)) for g, x in zip(mc[-1], base_vals)):
+                break
+        else:
+            report(ck, 'mirrored_baf is not 1/2 +- |f - 1/2| row by row', case, code=mc[-1][:20],
+                   expected=[mirror_f(True if ah is None else ah, x) for x in base_vals][:20], clause='C18_baf/C18_boost')
+    case = dict(cx.base, stage='tumor_boost', source_stage=stage, sample_id=ssel, normal_id=nsel, min_depth=md,
+                skip_somatic=ss, zygosity_freq=zf)
+    tbv = None
+    if paired:
+        try:
+            ser = varr.tumor_boost()
+            tbv = [fcell(x) for x in list(ser)]
+            if [int(x) for x in ser.index.tolist()] != labels:
+                report(ck, 'tumor_boost(): the result is not labelled like the variants it was computed from', case,
+                       code=[int(x) for x in ser.index.tolist()][:30], expected=labels[:30], clause='C18_attached')
+            else:
+                exp = own_values(rows, True, True)
+                for r, g, x in zip(rows, tbv, exp):
+                    if x != UNDEF and not same_num(g, x):
+                        report(ck, 'tumor_boost(): the value at %s:%d is not TumorBoost of that row\'s own frequencies' % (
+                            r[0], r[1]), case, code=g, expected=x, row=r, clause='C18_boost/C18_attached')
+                        break
+        except Exception as e:      # noqa
+            tbv = errname(e)
+            report(ck, 'tumor_boost() raised %s on a tumour/normal table' % tbv.msg, case, code=tbv, clause='C18_boost')
+            tbv = SKIP
+
+    def cb2(m, mc=mc, tbv=tbv, info=dict(case, stage='mirrored', queries=[list(q) for q in mq])):
+        if isinstance(m, Err):
+            ck.tie_break('model mirrored_baf source errors', info, model=m)
+            return
+        for c, mm in zip(mc, m[0]):
+            if c == SKIP or isinstance(c, Err):
+                continue
+            if not same_vec(c, mm):
+                ck.tie_break('model mirrored_baf differs from the code', info, code=c[:30], model=mm[:30])
+                return
+        if tbv == SKIP:
+            return
+        if (tbv is None) != (m[1] is None) or (tbv is not None and not same_vec(tbv, m[1])):
+            ck.tie_break('model tumor_boost differs from the code', info, code=tbv, model=m[1])
+    cx.pend.add('mirrored', [cx.H, cx.R, ssel, nsel, stage, md, ss, zf, [list(q) for q in mq]], cb2)
+
+
+# ---- het_frac_by_ranges ------------------------------------------------------------------------
+
+
+def stage_het_frac(cx, source, range_tables):
+    ck, idx = cx.ck, cx.idx
+    (stage, ssel, nsel, md, ss, zf, varr, rows, paired, labels) = source
+    het_keys = set(id(r) for r in het_rows(rows))
+    code_out, cases = [], []
+    for ranges in range_tables:
+        case = dict(cx.base, stage='het_frac', source_stage=stage, sample_id=ssel, normal_id=nsel, min_depth=md,
+                    skip_somatic=ss, zygosity_freq=zf, ranges=ranges)
+        try:
+            c = series_cells(varr.het_frac_by_ranges(make_segments(ranges)), len(ranges))
+        except Exception as e:      # noqa
+            c = errname(e)
+        code_out.append(c)
+        cases.append(case)
+        ck.count(['het_frac', idx, stage, ssel, nsel, md, ss, zf, ranges], nontrivial=bool(rows) and bool(ranges),
+                 cls='het_frac')
+        if isinstance(c, Err):
+            report(ck, 'het_frac_by_ranges raised %s' % c.msg, case, code=c, clause='C18_het_frac')
+            continue
+        if c == 'dest':
+            if ranges:
+                report(ck, 'het_frac_by_ranges returns the ranges table itself', case, clause='C18_het_frac')
+            continue
+        if len(c) != len(ranges):
+            report(ck, 'het_frac_by_ranges: result length differs from the number of ranges', case, code=len(c),
+                   expected=len(ranges), clause='C18_het_frac')
+            continue
+        for (chrom, s_, e_), got in zip(ranges, c):
+            inside = [r for r in rows if r[0] == chrom and s_ <= r[1] and r[2] <= e_]
+            touching = [r for r in rows if r[0] == chrom and r[2] > s_ and r[1] < e_]
+            if len(inside) != len(touching):
+                continue
+            exp = F(sum(1 for r in inside if id(r) in het_keys), len(inside)) if inside else None
+            if not same_num(got, exp):
+                report(ck, 'het_frac of %s:%d-%d is not the fraction of germline-heterozygous variants among the %d inside it'
+                       % (chrom, s_, e_, len(inside)), case, range=[chrom, s_, e_], code=got, expected=exp,
+                       clause='C18_het_frac')
+                break
+
+    def cb(m, code_out=code_out, cases=cases):
+        if isinstance(m, Err):
+            ck.tie_break('model het_frac source errors', cases[0] if cases else cx.base, model=m)
+            return
+        for c, mm, case in zip(code_out, m, cases):
+            if not same_vec(c, mm):
+                ck.tie_break('model het_frac_by_ranges differs from the code', case, code=c, model=mm)
+                return
+    if range_tables:
+        cx.pend.add('het_frac', [cx.H, cx.R, ssel, nsel, stage, md, ss, zf, [list(r) for r in range_tables]], cb)
+
+
+# ---- do_call: baf column, purity rescaling -------------------------------------------------------
+
+
+def stage_call(cx, source, calls):
+    from cnvlib import call as cnv_call
+    ck, idx = cx.ck, cx.idx
+    (stage, ssel, nsel, md, ss, zf, varr, rows, paired, labels) = source
+    if stage != 1 or not finite_rows(rows):
+        return
+    het = het_rows(rows)
+    none_het = bool(rows) and not het
+    code_out, cases, sent = [], [], []
+    for ranges, purity in calls:
+        if not ranges:
+            continue
+        case = dict(cx.base, stage='do_call', sample_id=ssel, normal_id=nsel, min_depth=md, zygosity_freq=zf, ranges=ranges,
+                    purity=purity)
+        try:
+            out = cnv_call.do_call(make_segments(ranges), varr, method='none', purity=purity)
+            c = [fcell(x) for x in out['baf'].tolist()] if 'baf' in out else 'dest'
+            if out.data[['chromosome', 'start', 'end']].values.tolist() != [list(r) for r in ranges]:
+                report(ck, 'do_call changed the segment coordinates', case, clause='C18_attached')
+        except Exception as e:      # noqa
+            c = errname(e)
+        sent.append([ranges, purity])
+        code_out.append(c)
+        cases.append(case)
+        rescaled = bool(purity and purity < 1)
+        ck.count(['call', idx, ssel, nsel, md, zf, ranges, purity], nontrivial=bool(rows),
+                 cls='call:%s' % ('rescaled' if rescaled else 'plain'))
+        if isinstance(c, Err):
+            report(ck, 'do_call with variants raised %s' % c.msg, case, code=c, clause='C18_rescale')
+            continue
+        if c == 'dest':
+            if rows:
+                report(ck, 'do_call with variants produced no baf column', case, clause='C18_baf')
+            continue
+        if none_het:
+            if any(x is not None for x in c):
+                report(ck, 'do_call gives a baf from %d records none of which is germline-heterozygous (documented fallback '
+                       'of VariantArray.heterozygous)' % len(rows), case, sig=SIG_FALLBACK, code=c,
+                       expected=[None] * len(ranges), clause='C18_het_fallback')
+            continue
+        for rg, got in zip(ranges, c):
+            cands, vals = o_range_baf(het, rg, None, False, paired)
+            if cands == UNDEF:
+                continue
+            if cands != [None] and rescaled:
+                p = F(purity)
+                cands = [(x - F(1, 2) * (1 - p)) / p for x in cands]       # t = (obs - (1 - p)/2) / p
+            if not any(same_num(got, x) for x in cands):
+                report(ck, 'do_call: baf of %s:%d-%d is not the (purity-rescaled) mirrored median of its heterozygous '
+                       'frequencies' % tuple(rg), case, range=list(rg), frequencies=vals[:20], code=got, expected=cands,
+                       clause='C18_rescale')
+                break
+
+    def cb3(m, code_out=code_out, cases=cases):
+        if isinstance(m, Err):
+            ck.tie_break('model do_call source errors', cases[0] if cases else cx.base, model=m)
+            return
+        for c, mm, case in zip(code_out, m, cases):
+            if not same_vec(c, mm):
+                ck.tie_break('model baf column of do_call differs from the code', case, code=c, model=mm)
+                return
+    if sent:
+        cx.pend.add('call_baf', [cx.H, cx.R, ssel, nsel, md, zf, sent], cb3)
+
+
+# ---- the random stream over one VCF ----------------------------------------------------------------
+
+
+def run_vcf(ck, rng, scratch, idx, vcf, pend, budget):
+    cx = Ctx(ck, pend, scratch, idx, vcf)
+    if vcf.get('whole_sample_missing'):
+        ck.cls('vcf:one-sample-without-any-%s' % vcf['whole_sample_missing'].upper())
+    ck.cls('vcf:records=%s:samples=%d:contigs=%d%s' % (vcf['size_class'], len(vcf['samples']), len(vcf['contigs']),
+                                                       ':pedigree' if vcf['peds'] else ''))
     for _ in range(budget['choose']):
         ssel, nsel = gen_selectors(rng, vcf)
-        case = dict(base, stage='choose', sample_id=ssel, normal_id=nsel)
-        c = code_choose(path, ssel, nsel)
-        o = o_choose(vcf, ssel, nsel)
-        cls = 'choose:%s:%s' % ('ped' if vcf['peds'] else 'noped',
-                                'err' if isinstance(c, Err) else ('pair' if c[1] else 'single'))
-        ck.count(['choose', vcf['samples'], vcf['peds'], ssel, nsel], nontrivial=(ssel is not None or nsel is not None
-                                                                                  or bool(vcf['peds'])), cls=cls)
-        if o != UNDEF and c != o:
-            report(ck, 'sample/normal choice differs from the documented rules', case, code=c, expected=o,
-                         clause='C18_choose')
-            continue
-
-        def cb(m, c=c, case=case):
-            if m != c:
-                ck.tie_break('model choose_samples differs from _choose_samples', case, code=c, model=m)
-        pend.add('choose', [H, ssel, nsel], cb)
-
-    # ---- read ---------------------------------------------------------------
-    unfiltered = {}
+        stage_choose(cx, ssel, nsel)
     for j in range(budget['read']):
         if j == 0:
             ssel, nsel = valid_selectors(rng, vcf)
@@ -713,431 +1280,49 @@ def run_vcf(ck, rng, scratch, idx, vcf, pend, budget):
             md = rng.choice([None, 0, 1, vcf['mind'], vcf['mind'], 20, rng.randint(1, 60)])
             sr = rng.random() < 0.2
             ss = rng.random() < 0.5
-        case = dict(base, stage='read', sample_id=ssel, normal_id=nsel, min_depth=md, skip_reject=sr, skip_somatic=ss)
-        v = code_read(path, ssel, nsel, md, sr, ss)
-        o = o_choose(vcf, ssel, nsel)
-        if isinstance(v, Err):
-            c = v
-            ck.count(['read', idx, ssel, nsel, md, sr, ss], nontrivial=False, cls='read:error')
-            if isinstance(o, list):
-                report(ck, 'reading raised %s for selectors the documented rules accept' % v.msg, case, code=v,
-                             expected=o, clause='C18_choose')
-                continue
-        else:
-            paired, labels, rows = table_rows(v)
-            c = [paired, rows, is_bare(v)]
-            nontriv = len(rows) > 0
-            ck.count(['read', idx, ssel, nsel, md, sr, ss], nontrivial=nontriv,
-                     cls='read:%s:%s%s%s' % ('paired' if paired else 'single', 'd' if md else '-', 's' if ss else '-',
-                                             'r' if sr else '-'))
-            if labels != list(range(len(rows))):
-                report(ck, 'read: index is not 0..n-1 after sort', case, code=labels[:20], clause='C18_attached')
-                continue
-            if isinstance(o, Err):
-                report(ck, 'reading succeeded although the selectors name no sample of the file', case, code=c[0],
-                             expected=o, clause='C18_choose')
-                continue
-            ok = True
-            if isinstance(o, list):
-                if paired != bool(o[1]) and not is_bare(v):
-                    report(ck, 'read: paired columns do not follow the chosen pair', case, code=paired, expected=o,
-                                 clause='C18_choose')
-                    continue
-                if not md and not ss:
-                    ok = o_check_rows(ck, vcf, case, o[0], o[1], rows, sr)
-                    if ok and not sr:
-                        unfiltered[(o[0], o[1])] = rows
-                else:
-                    # C18_filters: exactly the unfiltered rows passing the filters (metamorphic on the code's own rows)
-                    v0 = code_read(path, ssel, nsel, None, sr, False)
-                    if isinstance(v0, Err):
-                        report(ck, 'unfiltered read fails where the filtered read works', case, code=v0, clause='C18_filters')
-                        continue
-                    _, _, rows0 = table_rows(v0)
-                    exp = rows0
-                    if md and any(r[6][1] for r in rows0):
-                        exp = [r for r in exp if (r[7] if r[7] is not None else r[6])[1] >= md]
-                    if ss:
-                        exp = [r for r in exp if not r[5]]
-                    if rows != exp:
-                        report(ck, 'read: filtered table is not the unfiltered table restricted by min_depth/skip_somatic',
-                                     case, code=[rkey(r) for r in rows][:40], expected=[rkey(r) for r in exp][:40],
-                                     clause='C18_filters')
-                        ok = False
-            if not ok:
-                continue
-
-        def cb(m, c=c, case=case):
-            if isinstance(m, Err) or isinstance(c, Err):
-                if m != c:
-                    ck.tie_break('model read_vcf error behaviour differs from the code', case, code=c, model=m)
-                return
-            if m[0] != c[0] or m[2] != c[2] or not same_rows(c[1], m[1]):
-                bad = next((i for i, (a, b) in enumerate(zip(c[1], m[1])) if not same_row(a, b)), None)
-                ck.tie_break('model read_vcf differs from tabio.read', case, code_paired=c[0], model_paired=m[0],
-                             n_code=len(c[1]), n_model=len(m[1]), first_diff=bad,
-                             code=c[1][bad] if bad is not None and bad < len(c[1]) else None,
-                             model=m[1][bad] if bad is not None and bad < len(m[1]) else None)
-        pend.add('read', [H, R, ssel, nsel, md, sr, ss], cb)
-
-    # ---- load_het_snps -----------------------------------------------------
+        stage_read(cx, ssel, nsel, md, sr, ss)
     het_tables = []
     for j in range(budget['het']):
         ssel, nsel = pair_selectors(rng, vcf)
         md = rng.choice([20, 20, vcf['mind'], vcf['mind'], 1, 0, None, rng.randint(1, 40)])
         zf = rng.choice([None, None, None, 0.25, 0.25, 0.125, 0.375, 0.0, 0.5, 0.3, 0.1, 0.75])
-        tb = rng.random() < 0.25
-        case = dict(base, stage='load_het', sample_id=ssel, normal_id=nsel, min_depth=md, zygosity_freq=zf, tumor_boost=tb)
-        h = code_load_het(path, ssel, nsel, md, zf, tb)
-        v1 = code_read(path, ssel, nsel, md, False, True)
-        if isinstance(v1, Err):
-            ck.count(['het', idx, ssel, nsel, md, zf, tb], nontrivial=False, cls='het:read-error')
-            continue
-        paired, _, rows1 = table_rows(v1)
-        fin = finite_rows(rows1)
-        if not fin:
-            ck.cls('het:non-finite-frequency')
-        # which rows are germline-heterozygous according to the property
-        eff = zf
-        fallback_freq = False
-        if zf is None and paired and not any(r[7][0] for r in rows1):
-            eff = 0.25
-            fallback_freq = True        # documented Mutect2 work-around: genotypes say nothing, no oracle
-        ambiguous = False
-        if eff is not None and 0 <= eff <= 0.5:
-            lo, hi = F(eff), 1 - F(eff)
-
-            def zy(g):
-                nonlocal ambiguous
-                f = g[3]
-                if f == 'inf':
-                    return F(1)
-                d, c = g[1], g[2]
-                x = F(int(c), int(d)) if d else F(0)
-                for thr in (lo, hi):
-                    if x != thr and abs(x - thr) < F(1, 10 ** 9):
-                        ambiguous = True
-                if float(hi) != 1 - eff:
-                    ambiguous = ambiguous or abs(x - hi) < F(1, 10 ** 9)
-                return F(0) if x < lo else (F(1) if x >= hi else F(1, 2))
-            germs = [zy(r[7] if r[7] is not None else r[6]) for r in rows1]
-            for r in rows1:
-                if r[7] is not None:
-                    zy(r[6])        # the tumour's zygosity column is recomputed too: same float caveat
-        else:
-            germs = [frac(germ(r)) for r in rows1]
-        if isinstance(h, Err):
-            c = h
-            ck.count(['het', idx, ssel, nsel, md, zf, tb], nontrivial=False, cls='het:error:' + h.msg[:14])
-            expect_err = (zf is not None and not (0 <= zf <= 0.5)) or (tb and not paired)
-            if tb and h.msg == 'ValueError' and is_bare(v1):
-                expect_err = True
-            if tb and boost_typeerror(ck, h, v1, case):
-                continue
-            if not expect_err:
-                report(ck, 'load_het_snps raised %s' % h.msg, case, code=h, clause='C18_het')
-                continue
-        else:
-            hp, hlabels, hrows = table_rows(h)
-            c = [hp, [[l, r] for l, r in zip(hlabels, hrows)], is_bare(h)]
-            exp = [r for r, g in zip(rows1, germs) if g == F(1, 2)]
-            n_het = len(exp)
-            ck.count(['het', idx, ssel, nsel, md, zf, tb], nontrivial=n_het > 0 and n_het < len(rows1),
-                     cls='het:%s:%s%s:%s' % ('paired' if paired else 'single', 'zf' if zf is not None else 'gt',
-                                             '+boost' if tb else '', 'none-het' if n_het == 0 else 'some-het'))
-            if ambiguous:
-                ck.float_ambiguous += 1
-                continue
-            if not fallback_freq:
-                got_keys = [rkey(r) for r in hrows]
-                if n_het == 0 and hrows:
-                    report(ck, 'load_het_snps keeps %d records although none is germline-heterozygous (documented '
-                                 'fallback of VariantArray.heterozygous)' % len(hrows), case, sig=SIG_FALLBACK,
-                                 code=got_keys[:20], expected=[], clause='C18_het_fallback')
-                elif got_keys != [rkey(r) for r in exp]:
-                    report(ck, 'load_het_snps does not keep exactly the germline-heterozygous records', case,
-                                 code=got_keys[:40], expected=[rkey(r) for r in exp][:40], clause='C18_het')
-                    continue
-                elif fin:
-                    # C18_attached / C18_boost: every kept row still carries its own numbers
-                    bad = None
-                    for r, e in zip(hrows, exp):
-                        ef = e[6][3]
-                        if tb:
-                            b = boost_f(exact_freq(None, e, 't') or F(0), exact_freq(None, e, 'n') or F(0))
-                            if b == UNDEF:
-                                continue
-                            ef = b
-                        z0 = 1 if eff is not None else 0      # zygosity is recomputed from the frequency when asked
-                        if not same_num(r[6][3], ef if tb else frac(ef)) or r[6][z0:3] != e[6][z0:3] or r[:6] != e[:6] \
-                                or (r[7] is None) != (e[7] is None) or (r[7] is not None and r[7][z0:] != e[7][z0:]):
-                            bad = (r, ef)
-                            break
-                    if bad is not None:
-                        holes = hlabels != list(range(len(hlabels)))
-                        report(ck, 'load_het_snps%s: a kept row does not carry its own %s frequency' % (
-                            '(tumor_boost=True)' if tb else '', 'TumorBoost-normalised' if tb else 'allele'), case,
-                            sig=SIG_BOOST if (tb and holes) else None, code=bad[0], expected=bad[1],
-                            clause='C18_attached/C18_boost')
-                        if not (tb and holes):
-                            continue
-            if not tb:
-                het_tables.append((ssel, nsel, md, zf, h, hrows, paired, hlabels))
-
-        def cb(m, c=c, case=case):
-            if isinstance(m, Err) or isinstance(c, Err):
-                if m != c:
-                    ck.tie_break('model load_het_snps error behaviour differs from the code', case, code=c, model=m)
-                return
-            cl = [x[0] for x in c[1]]
-            ml = [x[0] for x in m[1]]
-            if m[0] != c[0] or m[2] != c[2] or cl != ml or not same_rows([x[1] for x in c[1]], [x[1] for x in m[1]]):
-                ck.tie_break('model load_het_snps differs from the code', case, code_labels=cl[:30], model_labels=ml[:30],
-                             code=[x[1] for x in c[1]][:10], model=[x[1] for x in m[1]][:10])
-        if fin:
-            pend.add('load_het', [H, R, ssel, nsel, md, zf, tb], cb)
-
-    # ---- BAF per range, mirrored_baf, tumor_boost ----------------------------
+        tb = rng.random() < 0.3
+        t = stage_het(cx, ssel, nsel, md, zf, tb)
+        if t is not None:
+            het_tables.append(t)
     sources = []
     for j in range(budget['baf']):
         if het_tables and rng.random() < 0.6:
-            ssel, nsel, md, zf, varr, rows, paired, labels = rng.choice(het_tables)
-            sources.append((1, ssel, nsel, md, True, zf, varr, rows, paired, labels))
+            sources.append(rng.choice(het_tables))
         else:
             ssel, nsel = pair_selectors(rng, vcf)
             md = rng.choice([None, None, vcf['mind'], 20])
             ss = rng.random() < 0.5
-            v = code_read(path, ssel, nsel, md, False, ss)
-            if isinstance(v, Err):
-                continue
-            paired, labels, rows = table_rows(v)
-            sources.append((0, ssel, nsel, md, ss, None, v, rows, paired, labels))
-    for (stage, ssel, nsel, md, ss, zf, varr, rows, paired, labels) in sources:
-        if not finite_rows(rows):
-            ck.cls('baf:non-finite-frequency-skipped')
-            continue
-        germs = [frac(germ(r)) for r in rows]
-        het = [r for r, g in zip(rows, germs) if g == F(1, 2)]
-        used_fallback = not het
-        # a normal frequency of exactly 1 makes TumorBoost divide by zero (inf / NaN): outside the model's BAF stages
-        boost_inf = paired and any((exact_freq(None, r, 'n') or F(0)) == 1 for r in rows)
-        src = het if het else rows
-        queries, code_out, cases = [], [], []
+            src = make_source(cx, 0, ssel, nsel, md, ss, None)
+            if src is not None:
+                sources.append(src)
+    for src in sources:
+        rows, paired = src[7], src[8]
+        queries = []
         for q in range(budget['baf_q']):
             ranges = gen_ranges(rng, vcf, rows)
             if rng.random() < 0.03:
                 ranges = []
-            ah = rng.choice([None, None, True, False])
-            tb = paired and rng.random() < 0.3
-            case = dict(base, stage='baf', source_stage=stage, sample_id=ssel, normal_id=nsel, min_depth=md, skip_somatic=ss,
-                        zygosity_freq=zf, ranges=ranges, above_half=ah, tumor_boost=tb)
-            try:
-                out = varr.baf_by_ranges(make_segments(ranges), above_half=ah, tumor_boost=tb)
-                c = series_cells(out, len(ranges))
-            except Exception as e:      # noqa
-                c = errname(e)
-                if tb and boost_typeerror(ck, c, varr, case):
-                    c = SKIP
-            queries.append([ranges, ah, tb])
-            code_out.append(c)
-            cases.append(case)
-            ck.count(['baf', idx, stage, ssel, nsel, md, ss, zf, ranges, ah, tb], nontrivial=bool(src) and bool(ranges),
-                     cls='baf:%s:%s%s' % ('ah=' + str(ah), 'boost' if tb else 'plain', ':fallback' if used_fallback else ''))
-            if tb and boost_inf and c != SKIP:
-                ck.cls('baf:boost-with-normal-frequency-1(skipped)')
-                code_out[-1] = c = SKIP
-            if c == SKIP:
-                continue
-            if isinstance(c, Err):
-                if not rows and ranges and is_bare(varr):
-                    report(ck, 'baf_by_ranges raises %s instead of returning a vector of missing values for a VCF without '
-                           'records read with skip_somatic=True (the table lost all its value columns)' % c.msg, case,
-                           sig=SIG_EMPTY, code=c, expected=[None] * len(ranges), clause='C18_baf')
-                else:
-                    report(ck, 'baf_by_ranges raised %s' % c.msg, case, code=c, clause='C18_baf')
-                continue
-            if c == 'dest':
-                if ranges:
-                    report(ck, 'baf_by_ranges returns the ranges table itself, not one value per range', case,
-                           code='<the ranges DataFrame>', expected=[None] * len(ranges) if not rows else None, clause='C18_baf')
-                continue
-            if len(c) != len(ranges):
-                report(ck, 'baf_by_ranges: result length differs from the number of ranges', case, code=len(c),
-                             expected=len(ranges), clause='C18_baf')
-                continue
-            # per range: median of the contained heterozygous frequencies mirrored to one side of 1/2
-            holes = len(het) not in (0, len(rows)) or labels != list(range(len(labels)))
-            for (chrom, s, e), got in zip(ranges, c):
-                inside = [r for r in src if r[0] == chrom and s <= r[1] and r[2] <= e]
-                touching = [r for r in src if r[0] == chrom and r[2] > s and r[1] < e]
-                if len(inside) != len(touching):
-                    ck.cls('baf:range-with-straddling-variant(model only)')
-                    continue
-                if tb:
-                    vals = [boost_f(exact_freq(None, r, 't') or F(0), exact_freq(None, r, 'n') or F(0)) for r in inside]
-                    if UNDEF in vals:
-                        continue
-                else:
-                    vals = [exact_freq(None, r, 't') or F(0) for r in inside]
-                if not vals:
-                    if got is not None:
-                        report(ck, 'BAF of a range without heterozygous variants is not missing', case,
-                                     sig=SIG_BOOST if (tb and holes) else None,
-                                     range=[chrom, s, e], code=got, expected=None, clause='C18_baf')
-                        break
-                    continue
-                cands = [median_f([mirror_f(a, x) for x in vals]) for a in ((True, False) if ah is None else (ah,))]
-                if any(same_num(got, x) for x in cands):
-                    continue
-                sig = None
-                if tb and holes:
-                    sig = SIG_BOOST
-                elif len(vals) == 1 and ah is not None and same_num(got, vals[0]):
-                    sig = SIG_SINGLE
-                report(ck, 'BAF of %s:%d-%d is not the median of its heterozygous frequencies mirrored %s 1/2' % (
-                    chrom, s, e, 'above' if ah else 'below' if ah is not None else 'to one side of'), case, sig=sig,
-                    range=[chrom, s, e], frequencies=vals[:20], code=got, expected=cands, clause='C18_baf')
-                break
-
-        def cb(m, code_out=code_out, cases=cases):
-            if isinstance(m, Err):
-                ck.tie_break('model BAF source table errors where the code reads fine', cases[0] if cases else base, model=m)
-                return
-            for c, mm, case in zip(code_out, m, cases):
-                if c != SKIP and not same_vec(c, mm):
-                    ck.tie_break('model baf_by_ranges differs from the code', case, code=c, model=mm)
-                    return
-        if queries:
-            pend.add('baf', [H, R, ssel, nsel, stage, md, ss, zf, queries], cb)
-
-        # whole-array mirrored_baf and tumor_boost()
-        mq, mc = [], []
-        for ah in (None, True, False):
-            tb = paired and rng.random() < 0.5
-            try:
-                mc.append([fcell(x) for x in list(varr.mirrored_baf(above_half=ah, tumor_boost=tb))])
-            except Exception as e:      # noqa
-                mc.append(errname(e))
-                if tb and boost_typeerror(ck, mc[-1], varr, dict(base, stage='mirrored', above_half=ah, tumor_boost=tb,
-                                                                 sample_id=ssel, normal_id=nsel, min_depth=md)):
-                    mc[-1] = SKIP
-            mq.append([ah, tb])
-            ck.count(['mirrored', idx, stage, ssel, nsel, md, ss, zf, ah, tb], nontrivial=len(rows) > 1,
-                     cls='mirrored:ah=%s%s' % (ah, ':boost' if tb else ''))
-            if tb and boost_inf:
-                mc[-1] = SKIP
-            if mc[-1] == SKIP:
-                continue
-            if isinstance(mc[-1], Err):
-                if rows:
-                    report(ck, 'mirrored_baf raised %s' % mc[-1].msg, dict(base, stage='mirrored', above_half=ah, tumor_boost=tb),
-                           clause='C18_baf')
-                continue
-            base_vals = []
-            for r in rows:
-                t, n = exact_freq(None, r, 't') or F(0), (exact_freq(None, r, 'n') or F(0)) if paired else None
-                base_vals.append(boost_f(t, n) if tb else t)
-            if UNDEF in base_vals:
-                continue
-            for a in ((True, False) if ah is None else (ah,)):
-                if all(same_num(g, mirror_f(a, x)) for g, x in zip(mc[-1], base_vals)):
-                    break
-            else:
-                report(ck, 'mirrored_baf is not 1/2 +- |f - 1/2| row by row', dict(base, stage='mirrored', sample_id=ssel,
-                             normal_id=nsel, min_depth=md, above_half=ah, tumor_boost=tb), code=mc[-1][:20],
-                             expected=[mirror_f(True if ah is None else ah, x) for x in base_vals][:20], clause='C18_baf/C18_boost')
-        try:
-            tbv = [fcell(x) for x in list(varr.tumor_boost())] if paired else None
-        except Exception as e:      # noqa
-            tbv = errname(e)
-            if boost_typeerror(ck, tbv, varr, dict(base, stage='tumor_boost', sample_id=ssel, normal_id=nsel, min_depth=md)):
-                tbv = SKIP
-
-        def cb2(m, mc=mc, tbv=tbv, info=dict(base, stage='mirrored', source_stage=stage, sample_id=ssel, normal_id=nsel,
-                                             min_depth=md, skip_somatic=ss, zygosity_freq=zf, queries=mq)):
-            if isinstance(m, Err):
-                ck.tie_break('model mirrored_baf source errors', info, model=m)
-                return
-            for c, mm in zip(mc, m[0]):
-                if c == SKIP:
-                    continue
-                if isinstance(c, Err) and c.msg.startswith('Other'):
-                    c = Err('Other')
-                if not same_vec(c, mm):
-                    ck.tie_break('model mirrored_baf differs from the code', info, code=c[:30], model=mm[:30])
-                    return
-            if tbv == SKIP:
-                return
-            if (tbv is None) != (m[1] is None) or (tbv is not None and not same_vec(tbv, m[1])):
-                ck.tie_break('model tumor_boost differs from the code', info, code=tbv, model=m[1])
-        pend.add('mirrored', [H, R, ssel, nsel, stage, md, ss, zf, mq], cb2)
-
-    # ---- do_call: baf column, purity rescaling --------------------------------
-    from cnvlib import call as cnv_call
-    for (ssel, nsel, md, zf, varr, rows, paired, _labels) in het_tables[:budget['call']]:
-        if not finite_rows(rows):
-            continue
-        calls, code_out, cases = [], [], []
+            ah = rng.choice([None, None, True, False, True, False])
+            tb = rng.random() < (0.4 if paired else 0.1)
+            queries.append((ranges, ah, tb))
+        stage_baf(cx, src, queries)
+        stage_mirrored(cx, src, [(ah, rng.random() < (0.5 if paired else 0.1)) for ah in (None, True, False)])
+        if src[0] == 0:
+            stage_het_frac(cx, src, [gen_ranges(rng, vcf, rows)])
+    for src in het_tables[:budget['call']]:
+        calls = []
         for q in range(2):
-            ranges = gen_ranges(rng, vcf, rows)
-            if not ranges:
-                continue
+            ranges = gen_ranges(rng, vcf, src[7])
             purity = rng.choice([None, 1.0, 0.5, 0.25, 0.75, 0.3, 0.9, round(rng.uniform(0.05, 0.99), 2)])
-            case = dict(base, stage='do_call', sample_id=ssel, normal_id=nsel, min_depth=md, zygosity_freq=zf, ranges=ranges,
-                        purity=purity)
-            try:
-                out = cnv_call.do_call(make_segments(ranges), varr, method='none', purity=purity)
-                c = [fcell(x) for x in out['baf'].tolist()] if 'baf' in out else 'dest'
-                if out.data[['chromosome', 'start', 'end']].values.tolist() != [list(r) for r in ranges]:
-                    report(ck, 'do_call changed the segment coordinates', case, clause='C18_attached')
-            except Exception as e:      # noqa
-                c = errname(e)
-            calls.append([ranges, purity])
-            code_out.append(c)
-            cases.append(case)
-            ck.count(['call', idx, ssel, nsel, md, zf, ranges, purity], nontrivial=bool(rows),
-                     cls='call:%s' % ('rescaled' if (purity and purity < 1) else 'plain'))
-            if isinstance(c, Err):
-                report(ck, 'do_call with variants raised %s' % c.msg, case, code=c, clause='C18_rescale')
-                continue
-            if c == 'dest':
-                if rows:
-                    report(ck, 'do_call with variants produced no baf column', case, clause='C18_baf')
-                continue
-            germs = [frac(germ(r)) for r in rows]
-            src = [r for r, g in zip(rows, germs) if g == F(1, 2)] or rows
-            for (chrom, s, e), got in zip(ranges, c):
-                inside = [r for r in src if r[0] == chrom and s <= r[1] and r[2] <= e]
-                touching = [r for r in src if r[0] == chrom and r[2] > s and r[1] < e]
-                if len(inside) != len(touching):
-                    continue
-                vals = [exact_freq(None, r, 't') or F(0) for r in inside]
-                if not vals:
-                    if got is not None:
-                        report(ck, 'do_call: baf of a segment without heterozygous variants is not missing', case,
-                                     range=[chrom, s, e], code=got, clause='C18_baf')
-                        break
-                    continue
-                cands = [median_f([mirror_f(a, x) for x in vals]) for a in (True, False)]
-                if purity and purity < 1:
-                    p = F(purity)
-                    cands = [(x - F(1, 2) * (1 - p)) / p for x in cands]
-                if not any(same_num(got, x) for x in cands):
-                    report(ck, 'do_call: baf of %s:%d-%d is not the (purity-rescaled) mirrored median' % (chrom, s, e), case,
-                                 range=[chrom, s, e], frequencies=vals[:20], code=got, expected=cands, clause='C18_rescale')
-                    break
-
-        def cb3(m, code_out=code_out, cases=cases):
-            if isinstance(m, Err):
-                ck.tie_break('model do_call source errors', cases[0] if cases else base, model=m)
-                return
-            for c, mm, case in zip(code_out, m, cases):
-                if not same_vec(c, mm):
-                    ck.tie_break('model baf column of do_call differs from the code', case, code=c, model=mm)
-                    return
-        if calls:
-            pend.add('call_baf', [H, R, ssel, nsel, md, zf, calls], cb3)
-    os.remove(path)
+            calls.append((ranges, purity))
+        stage_call(cx, src, calls)
+    cx.close()
 
 
 # ----------------------------------------------------------------------------
@@ -1165,10 +1350,9 @@ def check_formulas(ck, rng):
     for (t, m), c, mo in zip(pairs, code, model):
         ck.count(['boost', t, m], nontrivial=t != m, cls='boost:%s' % ('t<n' if t < m else 't>=n'))
         e = boost_f(F(float(t)), F(float(m)))
-        if e != UNDEF and float(t) != float(m) or (e != UNDEF and t == m):
-            if e != UNDEF and not same_num(c, e):
-                report(ck, 'TumorBoost formula: boosted(%s, %s)' % (t, m), {'t': t, 'n': m}, code=c, expected=e, clause='C18_boost')
-                continue
+        if e != UNDEF and not same_num(c, e):
+            report(ck, 'TumorBoost formula: boosted(%s, %s)' % (t, m), {'t': t, 'n': m}, code=c, expected=e, clause='C18_boost')
+            continue
         if not same_num(c, mo):
             ck.tie_break('model _tumor_boost differs from the code', {'t': t, 'n': m}, code=c, model=mo)
     # rescale_baf and its inverse
@@ -1184,69 +1368,113 @@ def check_formulas(ck, rng):
         ck.count(['rescale', p, o], nontrivial=p != 1, cls='rescale')
         if not vlib.close(c, tb, 1e-7):
             report(ck, 'rescale_baf does not invert the mixing p*t + (1-p)/2', {'purity': p, 'observed': o}, code=c,
-                         expected=tb, clause='C18_rescale')
+                   expected=tb, clause='C18_rescale')
         elif not vlib.close(c, mo):
             ck.tie_break('model rescale_baf differs from the code', {'purity': p, 'observed': o}, code=c, model=mo)
-    # series2value on its own: summary of k values
+    # the per-range summary on its own: k frequencies in one range of a one-contig table, through the public method
+    from cnvlib.vary import VariantArray
     sums = []
     for _ in range(n):
-        k = rng.choice([0, 1, 1, 2, 2, 3, 4, 5, 8])
+        k = rng.choice([0, 1, 1, 1, 2, 2, 3, 4, 5, 8])
         vals = [rng.choice(grid) for _ in range(k)]
-        ah = rng.choice([None, True, False])
+        ah = rng.choice([None, True, False, True, False])
         sums.append((ah, vals))
     model = vlib.model_batch('c18_summary', [[ah, [float(x) for x in vals]] for ah, vals in sums])
+    seg = make_segments([['chr1', 0, 1000]])
     for (ah, vals), mo in zip(sums, model):
-        ser = pd.Series([float(x) for x in vals])
-        if len(ser) == 0:
-            c = None
-        elif len(ser) == 1:
-            c = fcell(ser.iat[0])
-        else:
-            c = fcell(np.nanmedian(vary._mirrored_baf(ser, ah)))
-        ck.count(['summary', ah, vals], nontrivial=len(vals) > 1, cls='summary:%d' % min(len(vals), 3))
+        ck.count(['summary', ah, vals], nontrivial=len(vals) > 1, cls='summary:%d:ah=%s' % (min(len(vals), 3), ah))
+        if not vals:
+            continue        # a table without rows: covered by the corpus
+        tab = pd.DataFrame({'chromosome': ['chr1'] * len(vals), 'start': list(range(10, 10 + len(vals))),
+                            'end': list(range(11, 11 + len(vals))), 'ref': 'A', 'alt': 'G',
+                            'zygosity': 0.5, 'alt_freq': [float(x) for x in vals]})
+        c = fcell(list(VariantArray(tab).baf_by_ranges(seg, above_half=ah))[0])
+        fv = [F(float(x)) for x in vals]
+        cands = [median_f([mirror_f(a, x) for x in fv]) for a in ((True, False) if ah is None else (ah,))]
+        if not any(same_num(c, x) for x in cands):
+            report(ck, 'BAF of one range holding %d heterozygous frequencies is not their median mirrored %s 1/2' % (
+                len(vals), 'above' if ah else 'below' if ah is not None else 'to one side of'),
+                {'above_half': ah, 'values': vals}, code=c, expected=cands, clause='C18_baf')
+            continue
         if not same_num(c, mo):
-            fv = [F(float(x)) for x in vals]
             if len(fv) > 1 and ah is None and median_f(fv) != F(1, 2) and abs(median_f(fv) - F(1, 2)) < F(1, 10 ** 9):
                 ck.float_ambiguous += 1
                 continue
-            ck.tie_break('model series2value differs from nanmedian(_mirrored_baf)', {'above_half': ah, 'values': vals},
+            ck.tie_break('model series2value differs from baf_by_ranges on one range', {'above_half': ah, 'values': vals},
                          code=c, model=mo)
 
 
 # ----------------------------------------------------------------------------
-# corpus: fixed regression cases (findings and boundary inputs)
+# corpus: fixed regression cases (corpus/c18.json), run first.  An entry is
+#   {name, what, vcf, steps: [...], budget?: {...}}
+# and a step is one explicit call of a stage:
+#   {stage: choose|read|het|baf|mirrored|call, ...arguments..., expect?}
 
 
-def mk_rec(chrom, ckey, pos, calls, ref='A', alt='G', somatic=False, filt=('PASS',)):
-    return {'chrom': chrom, 'ckey': ckey, 'pos': pos, 'ref': ref, 'alts': [alt], 'filt': list(filt), 'somatic': somatic,
-            'info_dp': None, 'info_end': None, 'has_ad': True, 'has_dp': True,
-            'calls': [{'gt': list(gt), 'phased': False, 'ad': [d - c, c], 'dp': d} for gt, c, d in calls]}
+def load_corpus():
+    p = os.path.join(vlib.VERIF, 'corpus', 'c18.json')
+    with open(p) as fh:
+        return json.load(fh)
 
 
-def corpus():
-    het, ref, hom = (0, 1), (0, 0), (1, 1)
-    out = []
-    # tumour/normal pair, a tumour-het/normal-ref record in the middle: filtering leaves index holes
-    out.append({'samples': ['T', 'N'], 'peds': [('T', 'N')], 'other_ped_lines': [], 'contigs': [('chr1', 0)], 'mind': 20,
-                'order': 'sorted', 'size_class': 'corpus', 'recs': [
-                    mk_rec('chr1', 0, 100, [(het, 30, 40), (het, 20, 40)]),
-                    mk_rec('chr1', 0, 200, [(het, 10, 40), (ref, 0, 40)]),
-                    mk_rec('chr1', 0, 300, [(het, 32, 40), (het, 22, 40)]),
-                    mk_rec('chr1', 0, 400, [(hom, 40, 40), (hom, 40, 40)]),
-                    mk_rec('chr1', 0, 500, [(het, 10, 40), (het, 18, 40)]),
-                    mk_rec('chr1', 0, 600, [(het, 28, 40), (het, 20, 40)])]})
-    # no heterozygous record at all
-    out.append({'samples': ['S'], 'peds': [], 'other_ped_lines': [], 'contigs': [('chr1', 0)], 'mind': 20, 'order': 'sorted',
-                'size_class': 'corpus', 'recs': [mk_rec('chr1', 0, 100, [(ref, 0, 40)]), mk_rec('chr1', 0, 200, [(hom, 40, 40)])]})
-    # one heterozygous SNP per segment, below one half
-    out.append({'samples': ['S'], 'peds': [], 'other_ped_lines': [], 'contigs': [('chr1', 0), ('chr2', 1)], 'mind': 20,
-                'order': 'sorted', 'size_class': 'corpus', 'recs': [
-                    mk_rec('chr1', 0, 100, [(het, 12, 40)]), mk_rec('chr1', 0, 5000, [(het, 30, 40)]),
-                    mk_rec('chr2', 1, 70, [(het, 10, 40)]), mk_rec('chr2', 1, 90, [(het, 14, 40)])]})
-    # empty file, two samples
-    out.append({'samples': ['T', 'N'], 'peds': [], 'other_ped_lines': [], 'contigs': [('chr1', 0)], 'mind': 20,
-                'order': 'sorted', 'size_class': 'corpus', 'recs': []})
-    return out
+def norm_vcf(v):
+    v = dict(v)
+    v['contigs'] = [tuple(c) for c in v['contigs']]
+    v['peds'] = [tuple(p) for p in v['peds']]
+    v.setdefault('other_ped_lines', [])
+    v.setdefault('order', 'sorted')
+    v.setdefault('mind', 20)
+    v.setdefault('size_class', 'corpus')
+    recs = []
+    for r in v['recs']:
+        r = dict(r)
+        r.setdefault('filt', ['PASS'])
+        r.setdefault('somatic', False)
+        r.setdefault('info_dp', None)
+        r.setdefault('info_end', None)
+        r.setdefault('has_ad', True)
+        r.setdefault('has_dp', True)
+        r['ckey'] = dict(v['contigs'])[r['chrom']]
+        r['calls'] = [dict(c, phased=c.get('phased', False)) for c in r['calls']]
+        recs.append(r)
+    v['recs'] = recs
+    return v
+
+
+def run_corpus_entry(ck, rng, scratch, idx, entry, pend):
+    vcf = norm_vcf(entry['vcf'])
+    cx = Ctx(ck, pend, scratch, idx, vcf)
+    cx.base['corpus'] = entry['name']
+    for st in entry.get('steps', []):
+        k = st['stage']
+        if k == 'choose':
+            stage_choose(cx, st.get('sample_id'), st.get('normal_id'))
+        elif k == 'read':
+            stage_read(cx, st.get('sample_id'), st.get('normal_id'), st.get('min_depth'), st.get('skip_reject', False),
+                       st.get('skip_somatic', False))
+        elif k == 'het':
+            stage_het(cx, st.get('sample_id'), st.get('normal_id'), st.get('min_depth', 20), st.get('zygosity_freq'),
+                      st.get('tumor_boost', False), expect=st.get('expect'))
+        else:
+            s = st['source']
+            src = make_source(cx, s['stage'], s.get('sample_id'), s.get('normal_id'), s.get('min_depth'),
+                              s.get('skip_somatic', False), s.get('zygosity_freq'), must=True)
+            if src is None:
+                continue
+            if k == 'baf':
+                qs = [(q['ranges'], q.get('above_half'), q.get('tumor_boost', False)) for q in st['queries']]
+                stage_baf(cx, src, qs, expects=[q.get('expect') for q in st['queries']])
+            elif k == 'mirrored':
+                stage_mirrored(cx, src, [(q.get('above_half'), q.get('tumor_boost', False)) for q in st['queries']])
+            elif k == 'call':
+                stage_call(cx, src, [(q['ranges'], q.get('purity')) for q in st['queries']])
+            elif k == 'het_frac':
+                stage_het_frac(cx, src, [q['ranges'] for q in st['queries']])
+            else:
+                raise RuntimeError('corpus/c18.json: unknown stage %r' % k)
+    cx.close()
+    if entry.get('budget'):
+        run_vcf(ck, rng, scratch, idx, vcf, pend, entry['budget'])
 
 
 # ----------------------------------------------------------------------------
@@ -1256,12 +1484,13 @@ def run(ck, scratch):
     ck.rule = ('structured VCFs (1..3 samples; PEDIGREE none / one / two pairs / naming an absent sample / non-Derived lines; '
                '0..500 records on 1..3 contigs, sorted or shuffled; SNVs, insertions, deletions, ALT ".", <NON_REF>; FILTER '
                './PASS/q10/REJECT/KEEP; INFO DP/END/SOMATIC; FORMAT GT[:AD][:DP] with called, half-called, missing and haploid '
-               'genotypes, AD/DP missing wholly or partly, DP disagreeing with AD; depths biased to 0, 1 and min_depth-1/0/+1, '
-               'allele fractions biased to 1/8..7/8 exactly) written as text and read back through pysam; x sample/normal '
-               'selectors (none / name / index incl. negative / not in file) x min_depth x skip_reject x skip_somatic x '
-               'zygosity_freq (None, dyadic, 0.3, 0.1, invalid 0.75) x tumor_boost; segment tables sorted per contig with '
-               'breakpoints on variant starts/ends, gaps, contigs without variants; above_half None/True/False. '
-               'non-trivial = non-empty table / some but not all rows heterozygous / >1 value; distinct by case hash')
+               'genotypes, AD/DP missing wholly or partly or for a whole sample, DP disagreeing with AD; depths biased to 0, 1 '
+               'and min_depth-1/0/+1, allele fractions biased to 1/8..7/8 exactly) written as text and read back through pysam; '
+               'x sample/normal selectors (none / name / index incl. negative / not in file) x min_depth x skip_reject x '
+               'skip_somatic x zygosity_freq (None, dyadic, 0.3, 0.1, invalid 0.75) x tumor_boost; segment tables sorted per '
+               'contig with breakpoints on variant starts/ends, gaps, contigs without variants; above_half None/True/False. '
+               'corpus/c18.json first (explicit calls with recorded expectations: the four repaired defects and boundary '
+               'inputs). non-trivial = non-empty table / some but not all rows heterozygous / >1 value; distinct by case hash')
     ck.explanation = ('direct oracle (fractions) only where the property text defines the value: called genotypes, numeric AD/DP, '
                       'variants not straddling a range boundary; elsewhere code vs extracted model only')
     ck.unproved_remainder = [
@@ -1272,6 +1501,8 @@ def run(ck, scratch):
         'baf column of do_segmentation output is not exercised (same baf_by_ranges call as do_call)',
         'infinite frequencies (alt count > 0 at depth 0) are compared in the reader only; BAF stages skip such tables, '
         'and TumorBoost BAF/mirroring is not compared when a normal frequency is exactly 1 (division by zero)',
+        'pandas label alignment of the TumorBoost assignment is modelled as row-by-row (labels are unique after tabio.read); '
+        'the labels of tumor_boost() are compared with the table\'s on every case',
     ]
     if not ck.build_status.get('driver_ok'):
         raise RuntimeError('model driver unavailable')
@@ -1281,10 +1512,12 @@ def run(ck, scratch):
     quick = ck.tier == 'quick'
     budget = {'choose': 3, 'read': 3, 'het': 3, 'baf': 2, 'baf_q': 3, 'call': 1}
     idx = 0
-    for vcf in corpus():
-        run_vcf(ck, rng, scratch, idx, vcf, pend, {'choose': 2, 'read': 3, 'het': 4, 'baf': 3, 'baf_q': 4, 'call': 2})
+    corp = load_corpus()
+    for entry in corp:
+        run_corpus_entry(ck, rng, scratch, idx, entry, pend)
         idx += 1
     pend.flush()
+    ck.extra['corpus_cases'] = len(corp)
     nfiles = 150 if quick else 3000
     for i in range(nfiles):
         vcf = gen_vcf(rng, ck.tier)
